@@ -11,11 +11,29 @@ CHECKS = {
                 "assumed distinct",
     },
 }
+CHECKS["C01"] = {
+    "engine": "DrawSim", "ref": "DESIGN.md 4 (C01)",
+    "technique": "deterministic simulation of the draw order: exhaustive schedule enumeration of small null urns (exact law of "
+                 "the smallest reported p-value must be super-uniform), seeded schedules of larger urns with a 1e-12 binomial "
+                 "bound; shrinking + replay",
+    "text": "seeded search over (test, estimator/bet, parameters, null population or law); for each small case every distinct "
+            "draw order / IID sequence is run through the real test, which turns the probabilistic claim into an exact one for "
+            "that case; larger cases use R seeded orders. Exploration over configurations and populations; exact per small case.",
+    "note": "dyadic grids keep sum == N*t exact; NaN counts as 'not <= alpha'; raising calls report nothing; sampled kind has "
+            "false-alarm probability < 1e-8 per invocation; trusts numpy/scipy",
+}
+CHECKS["C05"] = {
+    "engine": "DrawSim", "ref": "DESIGN.md 4 (C05)",
+    "technique": "deterministic simulation with forked futures: same drawn prefix, two seeded futures and a truncation; "
+                 "already-reported history entries and applied alternatives/bets must be bit-identical; shrinking + replay",
+    "text": "seeded search over configurations (all tests, estimators, bets; finite and infinite N), histories, cut points and "
+            "replacement futures, including histories that drive the null mean to 0, above u, below 0 and that fire the "
+            "final-sample clamp. Evidence, not proof.",
+    "note": "bit-exact comparison of two runs of the same code; raising calls skipped and counted",
+}
 # claimed in DESIGN.md but not built yet: listed as not applicable *for now* with the honest reason
 NA_EXTRA = {
-    "C01": "check under construction (DESIGN 4: DrawSim exact risk oracle)",
     "C03": "check under construction (DESIGN 4)",
-    "C05": "check under construction (DESIGN 4)",
     "C06": "check under construction (DESIGN 4)",
     "C08": "check under construction (DESIGN 4)",
     "C09": "check under construction (DESIGN 4)",
